@@ -80,7 +80,7 @@ func apply(d dbm.DB, o op) string {
 		return errs(d.Delete(kb(o.K)))
 	case "delsync":
 		return errs(d.DeleteSync(kb(o.K)))
-	case "batch", "batchsync", "batchclose":
+	case "batch", "batchsync", "batchclose", "batchpeek":
 		b := d.NewBatch()
 		var r []string
 		for _, s := range o.Sub {
@@ -89,6 +89,14 @@ func apply(d dbm.DB, o op) string {
 			} else {
 				r = append(r, errs(b.Delete(kb(s.K))))
 			}
+		}
+		if o.Kind == "batchpeek" {
+			// observations while the batch is still open: nothing queued may be visible or hidden yet
+			for _, k := range []string{"a", "b", "c", "d"} {
+				r = append(r, doRead(d, read{Kind: "get", K: k}), doRead(d, read{Kind: "has", K: k}))
+			}
+			r = append(r, doRead(d, read{Kind: "iter", Start: "<nil>", End: "<nil>"}), doRead(d, read{Kind: "riter", Start: "<nil>", End: "<nil>"}))
+			r = append(r, errs(b.Write()))
 		}
 		switch o.Kind {
 		case "batch":
@@ -249,6 +257,10 @@ func checkBacked(run *report.Run) {
 			muts = append(muts, op{Kind: "batch", Sub: []op{m1, m2}})
 		}
 	}
+	for _, m1 := range members {
+		muts = append(muts, op{Kind: "batchpeek", Sub: []op{m1}})
+	}
+	muts = append(muts, op{Kind: "batchpeek", Sub: []op{members[0], members[5]}}, op{Kind: "batchpeek", Sub: []op{members[2], members[3]}})
 	muts = append(muts, op{Kind: "batchsync", Sub: []op{members[0], members[5]}},
 		op{Kind: "batchclose", Sub: []op{members[0], members[2]}}, op{Kind: "batch"})
 	// reads
